@@ -145,8 +145,9 @@ class Path:
 
 
 class Tracer:
-    def __init__(self, repo, no_inline=(), inline_extra=(), max_paths=6000, max_depth=4, follow_exceptions=True):
+    def __init__(self, repo, no_inline=(), inline_extra=(), max_paths=6000, max_depth=4, follow_exceptions=True, mark_carried=False):
         self.repo = repo
+        self.mark_carried = mark_carried
         self.no_inline = set(no_inline)
         self.inline_extra = set(inline_extra)
         self.max_paths = max_paths
@@ -257,6 +258,13 @@ class Tracer:
                     outs.extend(self._block(s.orelse, [zero], fi, depth))
                 one = q.fork()
                 one.loop += 1
+                if self.mark_carried:
+                    # loop-carried locals (assigned in the body, live at entry) are wrapped, so that a rule can tell
+                    # `acc = f(acc, x)` (uses the carried value) from `acc = f(init, x)` after a single iteration
+                    for nm in {n.id for st in s.body for n in ast.walk(st) if isinstance(n, ast.Name) and isinstance(n.ctx, ast.Store)}:
+                        if nm in one.env:
+                            cur = one.env[nm]
+                            one.env[nm] = Val(ast.Call(func=ast.Name(id='carried', ctx=ast.Load()), args=[cur.ast], keywords=[]), tags=cur.tags)
                 each = Val(ast.Call(func=ast.Name(id='each', ctx=ast.Load()), args=[it.ast], keywords=[]), tags=it.tags)
                 self._bind(s.target, each, one, fi, s)
                 for r in self._block(s.body, [one], fi, depth):
@@ -280,6 +288,11 @@ class Tracer:
                     outs.extend(self._block(s.orelse, [zero], fi, depth))
                 one = q.fork()
                 one.loop += 1
+                if self.mark_carried:
+                    for nm in {n.id for st in s.body for n in ast.walk(st) if isinstance(n, ast.Name) and isinstance(n.ctx, ast.Store)}:
+                        if nm in one.env:
+                            cur = one.env[nm]
+                            one.env[nm] = Val(ast.Call(func=ast.Name(id='carried', ctx=ast.Load()), args=[cur.ast], keywords=[]), tags=cur.tags)
                 if not const_true:
                     self._add_fact(one, t, True)
                 for r in self._block(s.body, [one], fi, depth):
@@ -415,6 +428,41 @@ class Tracer:
         for a, pol in cfgmod.cond_facts(tval.ast, polarity):
             if (a, pol) not in p.facts:
                 p.facts.append((a, pol))
+        # negative comparisons are also recorded in their positive form with the polarity flipped
+        # (`x is not None` true  ==  `x is None` false), so that rules can match one spelling
+        n = tval.ast
+        while isinstance(n, ast.UnaryOp) and isinstance(n.op, ast.Not):
+            n, polarity = n.operand, not polarity
+        if isinstance(n, ast.Compare) and len(n.ops) == 1 and type(n.ops[0]) in _POSITIVE:
+            pos = ast.Compare(left=n.left, ops=[_POSITIVE[type(n.ops[0])]()], comparators=n.comparators)
+            f = (norm(pos), not polarity)
+            if f not in p.facts:
+                p.facts.append(f)
+
+    def trace_closure(self, val, fi=None):
+        """paths of a local function / lambda / private module function held in a value (its free variables keep
+        the values they had where the closure was created; parameters are symbolic)"""
+        if val.closure is None:
+            raise AnalysisError('tracer: value %s is not a known function' % val.text[:60])
+        t, cenv = val.closure
+        p = Path()
+        p.env = dict(cenv or {})
+        a = t.node.args
+        for x in a.posonlyargs + a.args + a.kwonlyargs:
+            p.env[x.arg] = Val(ast.Name(id=x.arg, ctx=ast.Load()), tags={'param:%s' % x.arg})
+        self._stack = [t.qualname]
+        Path.budget = [self.max_paths * 4]
+        body = t.node.body if isinstance(t.node.body, list) else [ast.Return(value=t.node.body)]
+        try:
+            paths = self._block(body, [p], t, 0)
+        finally:
+            Path.budget = None
+        for q in paths:
+            if q.status is None:
+                q.status = 'return'
+                q.ret = const_val(None)
+                q.events.append(Event('return', value=q.ret, fn=t.qualname, facts=tuple(q.facts)))
+        return t, paths
 
     # ------------------------------------------------------------------------------------------
     def _bind(self, target, v, p, fi, stmt):
@@ -478,6 +526,9 @@ class Tracer:
             if v is None:
                 if e.id in ('True', 'False', 'None'):
                     return [(p, const_val({'True': True, 'False': False, 'None': None}[e.id]))]
+                if e.id in fi.module.functions and e.id.startswith('_'):
+                    # a private module-level function used as a value (callback): can be inlined when it is called
+                    return [(p, Val(ast.Name(id=e.id, ctx=ast.Load()), closure=(fi.module.functions[e.id], None)))]
                 v = Val(ast.Name(id=e.id, ctx=ast.Load()), tags={'free:%s' % e.id})
             return [(p, v)]
         if isinstance(e, ast.IfExp):
@@ -846,6 +897,9 @@ class Tracer:
             else:
                 outs.append((r, rv))   # raise propagates: status stays 'raise'
         return outs
+
+
+_POSITIVE = {ast.IsNot: ast.Is, ast.NotEq: ast.Eq, ast.NotIn: ast.In}
 
 
 class _Deferred(ast.stmt):
